@@ -680,11 +680,19 @@ Dec(T, b, p, lim, st) ==
     [] T.k = "dtfixed" ->
          LET r == DecTs(<<[k |-> "ndt"], [k |-> "foffset"]>>, b, p, lim, st, 1, <<>>) IN
          IF ~r.ok THEN r
-         ELSE IF InnerDate(r.vs[1][2][2]) THEN DOk(<<15>> \o r.vs, r.p, st) ELSE DErr("Unspecified")
+         ELSE \* the instant (local time minus offset) must itself be representable: decided exactly at both ends
+              LET d == r.vs[1][2] t == r.vs[1][3] off == r.vs[2][2]
+                  sod == t[2] * 3600 + t[3] * 60 + t[4] IN
+              IF InnerDate(d[2]) THEN DOk(<<15>> \o r.vs, r.p, st)
+              ELSE IF t[5] >= 1000000000 THEN DErr("Unspecified")
+              ELSE IF d[2] = MaxYear /\ d[3] = 12 /\ d[4] = 31
+                   THEN (IF sod - off <= 86399 THEN DOk(<<15>> \o r.vs, r.p, st) ELSE DErr("BadValue"))
+              ELSE IF d[2] = MinYear /\ d[3] = 1 /\ d[4] = 1
+                   THEN (IF sod - off >= 0 THEN DOk(<<15>> \o r.vs, r.p, st) ELSE DErr("BadValue"))
+              ELSE DOk(<<15>> \o r.vs, r.p, st)
     [] T.k = "dttz" ->
          LET r == DecTs(<<[k |-> "ndt"], [k |-> "tz"]>>, b, p, lim, st, 1, <<>>) IN
-         IF ~r.ok THEN r
-         ELSE IF InnerDate(r.vs[1][2][2]) THEN DOk(<<16>> \o r.vs, r.p, st) ELSE DErr("Unspecified")
+         IF ~r.ok THEN r ELSE DOk(<<16>> \o r.vs, r.p, st)      \* the stored date-time is UTC: always representable
     [] T.k \in {"vecu8", "bytes"} -> LET r == DecRun(b, p, lim, FALSE) IN IF ~r.ok THEN r ELSE DOk(<<9>> \o r.s, r.p, st)
     [] T.k = "arru8" -> LET r == DecRun(b, p, lim, FALSE) IN
                         IF ~r.ok THEN r ELSE IF Len(r.s) # T.n THEN DErr("BadLength") ELSE DOk(<<9>> \o r.s, r.p, st)
